@@ -43,7 +43,7 @@ func Run(ctx *common.Ctx) int {
 			shapes = append(shapes, t)
 		}
 	}
-	sort.Ints(shapes)
+	sort.Sort(sort.Reverse(sort.IntSlice(shapes))) // the expensive (large) shapes first: better balance over the cores
 	var mu sync.Mutex
 	evals := 0
 	worstFrac := 0.0
